@@ -86,13 +86,19 @@ def kitchen_sink():
         ENT("named", [A("nm1", T("string"))]),
         ENT("dated", [A("yr", T("int"))]),
         ENT("record", [A("payload", T("binary"))], supers=["named", "dated"]),
+        # a subtype that redeclares TWO inherited attributes as derived, inside an ANDOR family: `*` twice in the supertype's part
+        ENT("dsup", [A("da", T("real")), A("db", T("real")), A("dc", T("int"))], super_expr="dsub ANDOR dother"),
+        ENT("dsub", [], supers=["dsup"], derived=[{"name": "da", "type": T("real"), "redecl": "dsup", "value": "1.0"},
+                                                   {"name": "db", "type": T("real"), "redecl": "dsup", "value": "2.0"}]),
+        ENT("dother", [A("dz", T("int"))], supers=["dsup"]),
         ENT("priced", [A("amt", D("amount")), A("amts", AGG("LIST", 0, None, D("amount")))]),
         ENT("document", [A("st", D("doc_status")), A("history", AGG("LIST", 0, None, D("doc_status"))), A("prev", D("doc_status"), True)]),
     ]
     return {"name": "kitchen_sink", "types": types, "entities": ents,
-            "legal_complex": [["base", "left", "right"], ["vehicle", "powered", "wheeled"], ["craft", "plane", "drone"]],
+            "legal_complex": [["base", "left", "right"], ["vehicle", "powered", "wheeled"], ["craft", "plane", "drone"], ["dsup", "dsub", "dother"]],
             "simple_ok": ["point", "circle", "poly", "bag_of_stuff", "base", "left", "right", "both", "wrapper", "wrapper_d",
-                          "wide", "narrow", "class", "union", "vehicle", "boat", "plane", "drone", "named", "dated", "record", "priced", "document"],
+                          "wide", "narrow", "class", "union", "vehicle", "boat", "plane", "drone", "named", "dated", "record", "priced", "document",
+                          "dsup", "dsub", "dother"],
             "features": {"hand_written": True}}
 
 
